@@ -69,7 +69,9 @@ type planT struct {
 
 func systematic() []planT {
 	var out []planT
-	add := func(cancel string, w int, pools ...pspec) { out = append(out, planT{cancel: cancel, pools: pools, weight: w}) }
+	add := func(cancel string, w int, pools ...pspec) {
+		out = append(out, planT{cancel: cancel, pools: pools, weight: w})
+	}
 	with := func(f func(p *pspec)) pspec { p := basePool(); f(&p); return p }
 
 	// clean runs: out-of-ammo ending, schedule ending, shared schedule, 0..3 instances
@@ -147,7 +149,14 @@ func systematic() []planT {
 		add("none", 0, with(func(p *pspec) { p.agg = pos + ".err"; p.ek = "dl" }))
 	}
 	add("none", 0, with(func(p *pspec) { p.prov = "late.err"; p.ek = "dl"; p.inst = 1; p.ammo = 1; p.shots = 1 }))
-	add("none", 0, with(func(p *pspec) { p.agg = "late.err"; p.ek = "dl"; p.inst = 1; p.ammo = 1; p.shots = 1; p.per = 0 }))
+	add("none", 0, with(func(p *pspec) {
+		p.agg = "late.err"
+		p.ek = "dl"
+		p.inst = 1
+		p.ammo = 1
+		p.shots = 1
+		p.per = 0
+	}))
 	for _, f := range []string{"newgun@0", "newgun@1", "newgun@2", "bind@1", "bind@3", "warmup", "sched@1", "sched@2"} {
 		add("none", 0, with(func(p *pspec) { p.fail = f; p.inst = 3; p.ek = "dl" }))
 	}
@@ -372,7 +381,7 @@ func randomPlan(r *rand.Rand) planT {
 // repetitions of one plan by weight: 0 = the runtime's select orders are sampled (many), 1 = expensive plans, 2 = plans
 // of round 2 that run in the plain worker, 3 / 4 = plans whose interleaving is forced (instrumented worker)
 func repsOf(weight int, tier string) int {
-	q, t := 24, 400
+	q, t := 24, 300
 	switch weight {
 	case 1:
 		q, t = 2, 6
@@ -386,6 +395,8 @@ func repsOf(weight int, tier string) int {
 		q, t = 1, 6
 	case 6: // a forced interleaving in which one select still has two ready cases
 		q, t = 8, 32
+	case 7: // many plans of one family, each once
+		q, t = 1, 1
 	}
 	if tier == "thorough" {
 		return t
